@@ -194,7 +194,13 @@ func (l *Lexer) embeddedCodeToken() token.Token {
 	case ')':
 		return l.rightParenthesesToken()
 	case '"', '\'':
-		return l.newToken(token.STR, l.readString())
+		str, terminated := l.readString()
+
+		if !terminated {
+			return l.newToken(token.ILLEGAL, str)
+		}
+
+		return l.newToken(token.STR, str)
 	case '<':
 		if l.peekChar() == '=' {
 			l.tokenBegins()
@@ -444,7 +450,9 @@ func (l *Lexer) isPotentiallyLong(tok token.TokenType) bool {
 		(tok == token.CONTINUE && l.char == 'I' && l.peekChar() == 'f')
 }
 
-func (l *Lexer) readString() string {
+// readString returns the string and false when the
+// end of input comes before the closing quote
+func (l *Lexer) readString() (string, bool) {
 	quote := l.char
 	result := ""
 
@@ -453,7 +461,7 @@ func (l *Lexer) readString() string {
 
 	if l.char == quote {
 		l.readChar() // skip the last quote
-		return result
+		return result, true
 	}
 
 	pos := l.pos
@@ -469,11 +477,14 @@ func (l *Lexer) readString() string {
 	}
 
 	result = l.input[pos:l.pos]
+	terminated := l.char == quote
 
-	l.readChar() // skip the last quote
+	if terminated {
+		l.readChar() // skip the last quote
+	}
 
 	// remove slashes before quotes
-	return strings.ReplaceAll(result, "\\"+string(quote), string(quote))
+	return strings.ReplaceAll(result, "\\"+string(quote), string(quote)), terminated
 }
 
 func (l *Lexer) readNumber() (string, bool) {
